@@ -10,7 +10,11 @@
    supervised (sequences, CSV and ARFF text) / logged / result-based sources, random type-compatible chains of
    built-in filters, cache() / chunk() / materialize() / save()+from_save() wrappers.  After every step the
    yielded interactions must equal the corresponding prefix of the first full read of a FRESH identical
-   pipeline, params must equal the reference's, and the caller's data must be untouched."""
+   pipeline, params must equal the reference's, and the caller's data must be untouched.
+3. save() as a step of the history, with the SIZE of the environment as a dimension: the model (BatchSet) cuts what save()
+   reads into batches and demands that the saved environment yields the reference sequence (SavedSound) for environments
+   below one batch, of exactly one batch, one more, and several batches plus a partial one; the driver renders each size
+   class as a real pipeline of the corresponding length (save() writes batches of 1000 interactions)."""
 import json, os, pickle, random, copy, itertools
 from .. import tlc, tracecheck
 
@@ -126,6 +130,32 @@ STEPS = {
 }
 WRAPS = ["cache", "chunk", "materialize"]
 
+# ---- size classes: the model's N items against batches of `batch` -> a real length against save()'s batches
+SAVE_BATCH = 1000      # coba/environments/serialized.py, EnvironmentsToObjects._env_to_objects: list(islice(I,1000))
+SIZE_MODEL = {"N = 4": "N = 5", "BatchSet = {}": "BatchSet = {6, 5, 4, 2}"}      # below one batch / exactly one / one more / two and a partial one
+KEEP_LEN = ["shuffle7", "shuffle0", "scale10", "impute", "sort0", "params", "noise0", "flatten", "where", "cache", "chunk", "materialize"]      # cheap steps that keep the length
+
+
+def real_pos(k, batch):
+    """abstract position k (in items, batches of `batch`) -> real position (batches of SAVE_BATCH): same number of full batches,
+    remainder 0 -> 0, 1 -> 1, batch-1 -> SAVE_BATCH-1, anything between -> the middle"""
+    full, rem = divmod(k, batch)
+    return full * SAVE_BATCH + (0 if rem == 0 else 1 if rem == 1 else SAVE_BATCH - 1 if rem == batch - 1 else SAVE_BATCH // 2)
+
+
+def sized_bases(L):
+    from coba.environments import Environments
+    from coba.learners import RandomLearner
+    X = [[i % 3, (i * 7) % 5, float(i % 4) / 2] for i in range(L)]; Y = [["a", "b", "c"][i % 3] for i in range(L)]
+    return {
+        "lambda":        lambda: Environments.from_lambda(L, _dn_a, _acts, _rwd),
+        "lambda-sparse": lambda: Environments.from_lambda(L, _sp_b, _acts, _rwd),
+        "linear-2":      lambda: Environments.from_linear_synthetic(L, n_actions=2, n_context_features=2, n_action_features=0, seed=9),
+        "bandit":        lambda: Environments.from_bandit_synthetic(L, n_actions=3, seed=4),
+        "sup-seq":       lambda: Environments.from_supervised(X, Y),
+        "logged":        lambda: Environments.from_lambda(L, _dn_a, _acts, _rwd).logged(RandomLearner(), seed=2),
+    }
+
 
 def pipelines(tmp, rng, count):
     """-> [(description, factory)] where factory() builds a fresh, identical single-environment pipeline"""
@@ -161,14 +191,17 @@ def run(ctx):
                             ("deeper", {"N = 4": "N = 5", "MaxOps = 3": "MaxOps = %d" % ctx.pick(3, 4)}, None),
                             ("guard:seed-restored-by-plain-statement", {'ShuffleMode = "local"': 'ShuffleMode = "plain"'}, "ParamsStable"),
                             ("guard:seed-restored-in-finally-but-cache-keeps-the-iterator", {'ShuffleMode = "local"': 'ShuffleMode = "finally"'}, "ParamsStable"),
-                            ("guard:drop-forgets-iterator", {"DropKillsIter = FALSE": "DropKillsIter = TRUE"}, "CacheSound")):
+                            ("guard:drop-forgets-iterator", {"DropKillsIter = FALSE": "DropKillsIter = TRUE"}, "CacheSound"),
+                            ("save+sizes", SIZE_MODEL, None),
+                            ("guard:save-collects-one-reused-buffer", dict(SIZE_MODEL, **{"AliasBatches = FALSE": "AliasBatches = TRUE"}), "SavedSound")):
         cfg = tracecheck._cfg("EnvRead.cfg", sub, ctx.scratch, "er_%s.cfg" % nm.replace(":", "_"))
         r = tlc.run("EnvRead", cfg, ctx.scratch, workers=8, timeout=3600, coverage=(expect is None))
-        ctx.add_tlc("EnvRead " + nm, r, required_actions=(["Open", "Next1", "Drop", "Params", "Pickle"] if expect is None else ()))
+        ctx.add_tlc("EnvRead " + nm, r, required_actions=((["Open", "Next1", "Drop", "Params", "Pickle"] + (["Save"] if nm == "save+sizes" else [])) if expect is None else ()))
         names = {v["name"] for v in r.violations}
         if expect is None:
             for v in r.violations: ctx.violation("spec:%s" % v["name"], "EnvRead.tla (%s) violates %s" % (nm, v["name"]), v["trace"][:60])
             if nm == "cache+shuffle": hists = [h for h in r.json if isinstance(h, list)]
+            if nm == "save+sizes": shists = [h for h in r.json if isinstance(h, dict)]
         elif expect not in names:
             raise RuntimeError("guard model %s does not violate %s: vacuous" % (nm, expect))
     hists = sorted({json.dumps(h, sort_keys=True) for h in hists})
@@ -261,6 +294,36 @@ def run(ctx):
                 ctx.violation("siblings:pickled-copy-differs", "%s(...) over two environments: a pickled copy of the second one (taken before any read) yields another sequence than the original object%s  pair=%s" % (sname, _first(rp, solo), pname), dict(pair=pname, step=sname))
     ctx.extra["sibling_cases"] = nsib
     if nsib < 20: raise RuntimeError("only %d sibling cases ran" % nsib)
+    # ---- save() as a step of the history, on environments of every size class of the model
+    shists = [json.loads(x) for x in sorted({json.dumps(h, sort_keys=True) for h in shists})]
+    if len(shists) < 100: raise RuntimeError("only %d histories with save()" % len(shists))
+    rng2 = random.Random(ctx.seed * 7919 + 4)
+    nsized = 0
+    for batch in sorted({h["batch"] for h in shists}):
+        mine = [h for h in shists if h["batch"] == batch]
+        L = real_pos(mine[0]["size"], batch); SB = sized_bases(L); done = 0; tries = 0
+        while done < ctx.pick(3, 6) and tries < 40:
+            tries += 1
+            b = rng2.choice(sorted(SB)); ch = [rng2.choice(KEEP_LEN) for _ in range(rng2.randrange(0, 3))]
+            def factory(b=b, ch=ch):
+                e = SB[b]()
+                for s_ in ch: e = STEPS[s_](e)
+                return e[0]
+            desc = "%s[%d]|%s" % (b, L, ">".join(ch))
+            try:
+                ref_env = factory(); ref = [canon(i) for i in ref_env.read()]; ref_params = canon(dict(ref_env.params))
+                if [canon(i) for i in factory().read()] != ref or len(ref) != L: continue
+            except Exception:
+                continue            # not a type-compatible chain
+            done += 1
+            for h in rng2.sample(mine, ctx.pick(3, 10)):
+                ctx.case(json.dumps([desc, h])); nsized += 1
+                bad = replay(factory, h["hist"], ref, ref_params, kmap=lambda k, batch=batch: real_pos(k, batch), tmp=tmp)
+                if bad:
+                    sig, what = bad
+                    ctx.violation(sig, "%s   pipeline=%s history=%s" % (what, desc, json.dumps([(s_["op"], s_["k"]) for s_ in h["hist"]])), dict(pipeline=desc, history=h))
+    ctx.extra["sized_save_cases"] = nsized
+    if nsized < 30: raise RuntimeError("only %d sized save() cases ran" % nsized)
     # save()/from_save(): the saved form read repeatedly
     from coba.environments import Environments
     for desc, factory in pipes[:ctx.pick(6, 30)] + [p for p in pipes[20:31]]:
@@ -277,15 +340,27 @@ def run(ctx):
         if not (r1 == r2): ctx.violation("from_save:reread", "a saved environment read twice gives different sequences  pipeline=%s" % desc, dict(pipeline=desc))
         elif r1 != ref: ctx.violation("from_save:differs", "the saved environment does not yield the sequence that was saved%s  pipeline=%s" % (_first(r1, ref), desc), dict(pipeline=desc))
     ctx.assumptions += ["components seeded with None (time-seeded by design) and one-shot sources are outside the property", "a chain whose first read on a fresh object raises is not type-compatible and is skipped (counted in chains_skipped_as_incompatible)",
-                        "abstract drop points 0..3 of the model (N=4, slice 2) are mapped to real positions 0, 1, 25 (one cache slice) and 30"]
+                        "abstract drop points 0..3 of the model (N=4, slice 2) are mapped to real positions 0, 1, 25 (one cache slice) and 30",
+                        "save() histories: the model's size classes (5 items against batches of 6, 5, 4, 2) are rendered as environments of 999, 1000, 1001, 2001 interactions (save() writes batches of 1000); positions are mapped batch-wise (real_pos)"]
 
 
 KMAP = {0: 0, 1: 1, 2: 25, 3: 30, 4: 31}
 
 
-def replay(factory, h, ref, ref_params):
+def replay(factory, h, ref, ref_params, kmap=None, tmp=None):
     env = factory()
     read_once = False
+    files = []
+    try: return _replay(env, h, ref, ref_params, kmap, tmp, files, read_once)
+    finally:
+        for f in files:
+            if os.path.exists(f): os.remove(f)
+
+
+_NSAVE = itertools.count()
+
+
+def _replay(env, h, ref, ref_params, kmap, tmp, files, read_once):
     for step in h:
         op = step["op"]
         try:
@@ -293,7 +368,7 @@ def replay(factory, h, ref, ref_params):
                 got = [canon(i) for i in env.read()]; read_once = True
                 if got != ref: return ("full-read-differs", "a full read gave %d interactions %s the reference's %d%s" % (len(got), "vs" , len(ref), _first(got, ref)))
             elif op == "partial":
-                k = min(KMAP.get(step["k"], step["k"]), max(len(ref) - 1, 0))
+                k = min(kmap(step["k"]) if kmap else KMAP.get(step["k"], step["k"]), max(len(ref) - 1, 0))
                 it = iter(env.read()); got = [canon(x) for x in itertools.islice(it, k)]
                 if hasattr(it, "close"): it.close()
                 del it
@@ -305,6 +380,10 @@ def replay(factory, h, ref, ref_params):
                     if p != ref_params: return ("params-changed", "params are %s, the reference reports %s" % (json.dumps(p)[:200], json.dumps(ref_params)[:200]))
             elif op == "pickle":
                 env = pickle.loads(pickle.dumps(env))
+            elif op == "save":       # save() reads the object as it is now; the history goes on with the environment save() returns
+                from coba.environments import Environments
+                f = os.path.join(tmp, "sv_%d.zip" % next(_NSAVE)); files.append(f)
+                env = Environments.from_custom(env).save(f)[0]; read_once = True
         except Exception as e:
             return ("%s:raises:%s" % (op, type(e).__name__), "%s raised %s: %s" % (op, type(e).__name__, str(e)[:120]))
     return None
